@@ -28,7 +28,7 @@ CLAIMS = {
              'ones (cover columns and final_source) (KEY); cached maps and the memoised hash are write-once — only '
              'readers and first-writers (VacantEntry::insert / Entry::or_insert*) touch the map cache, the cache fields '
              'are never reassigned (WRITEONCE); memo cells are used through get/get_or_init/clone only and every initialiser '
-             'reads data fields only (MEMO). NOT decided: that replay from (cached map + rope) attributes like the wrapped source. Added: both map collectors (map() and the cache-filling tee) feed every mapping to the encoder unconditionally (ENCODE-ALL), a necessary condition of replay transparency; content views forward (DELEG).',
+             'reads data fields only (MEMO). NOT decided: that replay from (cached map + rope) attributes like the wrapped source. Added: both map collectors (map() and the cache-filling tee) feed every mapping to the encoder unconditionally (ENCODE-ALL), a necessary condition of replay transparency; content views forward (DELEG). Round 3: the cache is never traversed, only read under the caller\'s key (KEY); MEMO covers every OnceLock/OnceCell cell; MEMO-RESET.',
         technique='who-may-call / receiver-type allow-list over resolved callees, def-use key provenance on MIR',
         design_ref='§5 C10'),
     'C14': dict(
@@ -37,7 +37,7 @@ CLAIMS = {
              'calls on self) reads cache state except through a memo accessor, memo cells are never compared/hashed/mutated '
              'themselves and all initialisers of a cell agree (MEMO); `==` of every type compares every data field (EQCOVER); '
              'Hash reads no data field Eq ignores, i.e. a==b implies equal hashes (HASH-IN-EQ); every hand-written Clone copies '
-             'every data field from self (CLONECOVER). NOT decided: "equal values give equal answers from every observer" as behaviour. Also registered here because the clauses depend on them: RESET/FRESH (the sorted accessor MEMO trusts is pure only if they hold), KEY/WRITEONCE (repeating an observer call never changes its answer), HASHALL (a container hash covers every element).',
+             'every data field from self (CLONECOVER). NOT decided: "equal values give equal answers from every observer" as behaviour. Also registered here because the clauses depend on them: RESET/FRESH (the sorted accessor MEMO trusts is pure only if they hold), KEY/WRITEONCE (repeating an observer call never changes its answer), HASHALL (a container hash covers every element). Round 3: a cache shared between clones requires immutable data (CLONECOVER shared-cache); MEMO-RESET.',
         technique='field-access-set analysis (A-FIELDS) over Eq/Hash/Clone cones on MIR; DATA/CACHE classification by Freeze',
         design_ref='§5 C14'),
     'C18': dict(
@@ -46,7 +46,7 @@ CLAIMS = {
              'the map cache, anywhere in the crate); the sorted-flag/sorted-index publication pair is written data-before-flag '
              '(FRESH) and read flag-before-data, including by Clone which copies the pair (PUBLISH-ORDER); all source types are '
              'Send+Sync by auto traits and mutation needs &mut (witnesses), so data-race freedom of the safe code is the '
-             'compiler\'s. NOT decided: sequential consistency of results in general, deadlock freedom with re-entrant callbacks.',
+             'compiler\'s. NOT decided: sequential consistency of results in general, deadlock freedom with re-entrant callbacks. Round 3: LOCKSCOPE — the sorted-index guard is never live across a call into a source or a caller-supplied callback (a structural necessary condition of the no-deadlock clause).',
         technique='who-may-call over resolved callees, dominator ordering of atomic flag vs. guarded data on MIR, compile witnesses',
         design_ref='§5 C18'),
     'C20': dict(
@@ -63,7 +63,7 @@ CLAIMS = {
              'alphabet, the 256-entry decoder table is its exact inverse with two distinct separator codes and one invalid code '
              '(TABLES, const-evaluated by the compiler, 320 entries); every byte any writer can put into an encoder buffer is a '
              'base64 digit, "," or ";" (ALPHABET, sound over-approximation over all writers incl. helper functions and closures). '
-             'NOT decided: VLQ arithmetic, relative-field state, skip rules, the line-only encoder, round-trip equality. Added: LINE-RESET — the decoder resets the running column whenever it advances the line, the full encoder resets its column state whenever it writes a semicolon.',
+             'NOT decided: VLQ arithmetic, relative-field state, skip rules, the line-only encoder, round-trip equality. Added: LINE-RESET — the decoder resets the running column whenever it advances the line, the full encoder resets its column state whenever it writes a semicolon. Round 3: ENC-FIRST-MAPPED (the line-only encoder takes state from a segment\'s line only when the segment is mapped).',
         technique='compiler const-evaluation of the codec tables + constant byte-set dataflow into the encoder buffers',
         design_ref='§5 C12'),
     'C15': dict(
@@ -72,7 +72,7 @@ CLAIMS = {
              'accepts (plus constant "version"), each bound to its namesake field (JSON-NAMES, read from the derived impls\' MIR '
              'and FIELDS constant), and through TryFrom every field is rebuilt from the raw field its own key is read into '
              '(JSON-FLOW) — so each field survives a round trip by name; several fields share a type, so a swap would compile. '
-             'NOT decided: escaping, parser totality, value equality after the round trip (simd-json/serde behaviour). Added: Option fields are skipped by Option::is_none only (JSON-SKIP: a present-but-empty value survives); the from_* cones touch no static / thread-local state (JSON-PURE).',
+             'NOT decided: escaping, parser totality, value equality after the round trip (simd-json/serde behaviour). Added: Option fields are skipped by Option::is_none only (JSON-SKIP: a present-but-empty value survives); the from_* cones touch no static / thread-local state (JSON-PURE). Round 3: raw fields of one type are converted by one call skeleton (JSON-SIBLING); IOERR for SourceMap::to_writer.',
         technique='constant/def-use extraction from derived Serialize/Deserialize MIR; field-flow through TryFrom',
         design_ref='§5 C15'),
     'C17': dict(
@@ -92,7 +92,7 @@ CLAIMS = {
              'data fields, or the same-named view of the children, or the type\'s own source() — and so are the two text views '
              '(source, rope); wrappers forward each view to the same view of the wrapped source (DELEG); no to_writer body drops, unwraps or '
              'ignores a writer error: each io::Result is returned or propagated with `?` (IOERR). NOT decided: that rope() renders to source(), '
-             'concatenation order, lossy decoding, the prefix property of a failed write. Added: writes go to the caller\'s writer or to an adapter with a propagated post-dominating flush (IOERR-SINK); ReplaceSource\'s two splice implementations agree on their position skeleton (SIBLING-SPLICE).',
+             'concatenation order, lossy decoding, the prefix property of a failed write. Added: writes go to the caller\'s writer or to an adapter with a propagated post-dominating flush (IOERR-SINK); ReplaceSource\'s two splice implementations agree on their position skeleton (SIBLING-SPLICE). Round 3: MEMO-RESET (a memo cell is reset by whoever mutates the data it was computed from).',
         technique='view-basis comparison (field-access sets + resolved trait callees per view) and def-use of call results on MIR',
         design_ref='§5 C07'),
     'C13': dict(
@@ -159,7 +159,7 @@ CLAIMS = {
         text='Static: the index-table discipline of the combined-map combinator — both index kinds are renumbered and both emitting '
              'aggregates take source/name indices only from the announced (global) numbering or tables filled from it; outer/inner local '
              'indices are used as keys only (IDX); each of its six de-duplication inserts stores len() and is followed by the announcement of '
-             'that value (PAIR). NOT decided: the binary search, identity-column adjustment, name matching, fallback semantics. Added: an announced fresh index is paired with an insertion into the same de-duplication map (PAIR converse); outer-name lookups that can reach an inner-mapped location are dominated by the name-vs-original-text comparison (NAMECHECK).',
+             'that value (PAIR). NOT decided: the binary search, identity-column adjustment, name matching, fallback semantics. Added: an announced fresh index is paired with an insertion into the same de-duplication map (PAIR converse); outer-name lookups that can reach an inner-mapped location are dominated by the name-vs-original-text comparison (NAMECHECK). Round 3: KEYSPACE and SIDES (translation tables are keyed in one numbering; tables handed to one helper belong to one child stream).',
         technique='index-space origin dataflow + post-dominator pairing on MIR',
         design_ref='§5 C09'),
     'C11': dict(
